@@ -90,8 +90,9 @@ def curated():
 
 
 def long_link():
-    """beyond the 3-segment bound: one 12-segment link (two-digit segment indices), used by C04 and C11."""
-    t = Topo("x01_long12", ["A", "B", "C"], [L("L1", "A", "B", 12), L("L2", "B", "C", 2, (1,))],
+    """beyond the 3-segment bound: one 12-segment link (two-digit segment indices) with speed limits on segments 1, 8 and 10
+    (as a Python set these indices do not iterate in ascending order), used by C01, C03, C04, C05, C10, C11."""
+    t = Topo("x01_long12", ["A", "B", "C"], [L("L1", "A", "B", 12, (1, 8, 10)), L("L2", "B", "C", 2, (1,))],
              {"A": ("O1", "ramp_out")}, {"C": ("D1", "cong")}, delta=True)
     assert t.spec_valid()
     return t
